@@ -20,7 +20,7 @@ import ast
 
 from .. import nodewalk, paths, tables
 from ..model import AnalysisError, Project, reachable, self_attr, walk_no_nested
-from ..report import Result
+from ..report import Result, ctx_of
 from .common import site, src, guard_rejects
 
 PROP = 'C20'
@@ -407,6 +407,7 @@ def check_progress(p, reach, r):
     # (b) every iteration of a process loop suspends: path based on all generator roots
     roots = []
     for w in nodewalk.walks(p):
+        r.ctx = ctx_of(w)
         for root, ps in w.roots.items():
             roots.append((w.root_funcs[root], ps))
     from .. import storewalk
@@ -859,6 +860,7 @@ def yield_value_is_event(fi, v):
 def check_none_deref(p, r):
     """First iteration of every node `behaviour`: attributes initialised to None in __init__ and not assigned on the path must not be dereferenced."""
     for w in nodewalk.walks(p):
+        r.ctx = ctx_of(w)
         fi = w.root_funcs.get('behaviour')
         if fi is None:
             continue
